@@ -34,9 +34,12 @@ LETTERS_SP = [["read"], ["assign", 5], ["assign", 7], ["assign", None], ["assign
 HOSTS = ["plain", "spec_unmanaged", "spec_managed", "spec_managed_prep",
          # the property is inherited (from a spec parent that does not manage it / from a plain mixin) and it is the
          # spec subclass that declares the managed annotation and the preparer
-         "inh_managed_prep", "mixin_managed"]
-MANAGED = ("spec_managed", "spec_managed_prep", "inh_managed_prep", "mixin_managed")
-PREPARED = ("spec_managed_prep", "inh_managed_prep")
+         "inh_managed_prep", "mixin_managed",
+         # the spec parent declares the managed property (no preparer); a subclass - undecorated / decorated - merely adds the
+         # `_prepare_p` hook, which applies to getter results and overrides alike
+         "plain_sub_prep_only", "spec_sub_prep_only"]
+MANAGED = ("spec_managed", "spec_managed_prep", "inh_managed_prep", "mixin_managed", "plain_sub_prep_only", "spec_sub_prep_only")
+PREPARED = ("spec_managed_prep", "inh_managed_prep", "plain_sub_prep_only", "spec_sub_prep_only")
 CLEAN = (AttributeError, TypeError, ValueError)
 
 _CLS_CACHE = {}
@@ -85,6 +88,13 @@ def sp_host(cfg):
         if host == "inh_managed_prep":
             parent = spec_class(bootstrap=bool(cfg.get("eager", True)))(parent)
         bases, ns = (parent,), {}
+    if host in ("plain_sub_prep_only", "spec_sub_prep_only"):
+        parent = spec_class(bootstrap=bool(cfg.get("eager", True)))(type("B", (), dict(ns, __annotations__={"p": int})))
+        cls = type("H", (parent,), {"_prepare_p": lambda self, v: _prep(v)})
+        if host == "spec_sub_prep_only":
+            cls = spec_class(bootstrap=bool(cfg.get("eager", True)))(cls)
+        _CLS_CACHE[key] = cls
+        return cls
     if host in MANAGED:
         ns["__annotations__"] = {"p": int}
     if host in PREPARED:
